@@ -490,6 +490,99 @@ func runRec(c *core.Ctx) []core.Obligation {
 		}
 	}
 
+	// ---- ping-pong recursion that consumes nothing: two decoder methods that call each other with
+	// the input unchanged must do so under contradictory tests of the first byte
+	{
+		var ms []*ssa.Function
+		for _, fn := range c.RepoFunctions() {
+			recv := fn.Signature.Recv()
+			if recv != nil && namedKey(recv.Type()) == "json.decoder" && fn.Synthetic == "" && fn.Blocks != nil && bufParam(fn) != nil {
+				ms = append(ms, fn)
+			}
+		}
+		sort.Slice(ms, func(i, j int) bool { return shortName(ms[i]) < shortName(ms[j]) })
+		// first-byte values under which fn calls g with its input unchanged (nil: no such call)
+		firstBytes := func(fn, g *ssa.Function) *[4]uint64 {
+			bp := bufParam(fn)
+			var acc *[4]uint64
+			for _, ci := range callsIn(fn) {
+				if staticCallee(ci.Common()) != g {
+					continue
+				}
+				same := false
+				for _, a := range ci.Common().Args {
+					if a == ssa.Value(bp) {
+						same = true
+					}
+				}
+				if !same {
+					continue
+				}
+				set := [4]uint64{^uint64(0), ^uint64(0), ^uint64(0), ^uint64(0)}
+				for _, e := range dominatingEdges(ci.Block()) {
+					bo, ok := e.ifi.Cond.(*ssa.BinOp)
+					if !ok || (bo.Op != token.EQL && bo.Op != token.NEQ) {
+						continue
+					}
+					k, isK := constInt(bo.Y)
+					ld, isLd := bo.X.(*ssa.UnOp)
+					if !isK || !isLd {
+						continue
+					}
+					ia, isIA := ld.X.(*ssa.IndexAddr)
+					if !isIA || ia.X != ssa.Value(bp) {
+						continue
+					}
+					if z, isZ := constInt(ia.Index); !isZ || z != 0 {
+						continue
+					}
+					eq := (bo.Op == token.EQL) == (e.succ == 0)
+					var only [4]uint64
+					only[k/64] = 1 << uint(k%64)
+					for w := 0; w < 4; w++ {
+						if eq {
+							set[w] &= only[w]
+						} else {
+							set[w] &^= only[w]
+						}
+					}
+				}
+				if acc == nil {
+					acc = &[4]uint64{}
+				}
+				for w := 0; w < 4; w++ {
+					acc[w] |= set[w]
+				}
+			}
+			return acc
+		}
+		n := 0
+		for i, f := range ms {
+			for _, g2 := range ms[i+1:] {
+				a, bb := firstBytes(f, g2), firstBytes(g2, f)
+				if a == nil || bb == nil {
+					continue
+				}
+				n++
+				key := "ping-pong:" + shortName(f) + "<->" + shortName(g2)
+				overlap := false
+				for w := 0; w < 4; w++ {
+					if a[w]&bb[w] != 0 {
+						overlap = true
+					}
+				}
+				if overlap {
+					b.addP([]string{"C06", "C02"}, core.Violation, key, c.FuncPos(f), fmt.Sprintf("%s and %s call each other with the input unchanged, and some first byte allows both calls: for such input they recurse without consuming anything until the stack overflows", shortName(f), shortName(g2)))
+				} else {
+					b.addP([]string{"C06", "C02"}, core.Discharged, key, c.FuncPos(f), "the two calls are made under contradictory tests of the first byte")
+				}
+			}
+		}
+		if n == 0 {
+			b.addP([]string{"C06", "C02"}, core.Discharged, "ping-pong:none", "json", "no two decoder methods call each other with the input unchanged")
+		}
+	}
+
 	// ---- every json function that opens a container counts it
 	nOpen := 0
 	for _, fn := range c.RepoFunctions() {
